@@ -639,7 +639,7 @@ round7._FIXTURE_EXPECT["GEN.earlyverdict"] = "matches_any"
 round7._FIXTURE_EXPECT["GEN.loopstale"] = "drop_edges"
 
 
-@rule("C10.12", ["C10", "C12"], "an alignment directive never weakens the requirement already recorded for the (still empty) current block", 1)
+@rule("C10.12", ["C10", "C12"], "an alignment directive never weakens the requirement already recorded for the (still empty) current block", 2)
 def c10_12(ctx: Ctx):
     fi = ctx.repo.func("assembler.assembler._Streamer._emit_alignment")
     lin = linear(fi.node)
@@ -647,6 +647,10 @@ def c10_12(ctx: Ctx):
                                                                               (isinstance(t, ast.Subscript) and "alignment" in _expanded(fi.node, t.value)) for t in g.node.targets)]
     if not stores:
         raise AnalysisError("_emit_alignment: store into the section's alignment map not found")
+    early = [x for x in lin.stmts if isinstance(x.node, ast.Return) and x.index < stores[-1].index]
+    ctx.check(not early, fi, early[0].node if early else fi.node, "every accepted alignment directive reaches the store (no early return)",
+              "a directive is dropped under a condition before its alignment is recorded: `.align 4` directly followed by `.align 16` on the same empty block keeps 4 only - the aligned instruction "
+              "lands on an address that is not 16-aligned", key="_emit_alignment::no-early-return")
     for g in stores:
         tgt = next(t for t in g.node.targets if isinstance(t, ast.Subscript))
         m, k = src(tgt.value), src(tgt.slice)
@@ -705,3 +709,25 @@ def move_returns(cfg, blocks, old, new):
                 return
 '''
 round7._FIXTURE_EXPECT["GEN.updatefirst"] = "move_returns"
+
+
+@rule("C12.19", ["C12"], "a directive that emits zero bytes leaves no line-map or block-type entry behind on an empty block", 2)
+def c12_19(ctx: Ctx):
+    ap = ctx.repo.func("assembler.assembler._Streamer._append_data")
+    lin = linear(ap.node)
+    stores = [g for g in lin.stmts if isinstance(g.node, ast.Assign) and isinstance(g.node.targets[0], ast.Subscript) and "line_map" in src(g.node.targets[0].value)]
+    if len(stores) != 1:
+        raise AnalysisError("_append_data: line_map store not found")
+    par = ap.node.args.args[1].arg
+    ctx.check(lin.under(stores[0], par), ap, stores[0].node, "_append_data records a source line only when it appends bytes",
+              f"the line-map entry is written even when `{par}` is empty (`.zero 0`, `.fill 0`): an empty trailing block then carries a line_map entry and finalize() dies with a bare "
+              "AssertionError in _remove_trailing_empty_block (`ret; .zero 0`)", key="_append_data::no-entry-for-nothing")
+    eb = ctx.repo.func("assembler.assembler._Streamer.emit_bytes")
+    elin = linear(eb.node)
+    typed = [(g, c) for g, c in elin.all_calls() if src(c.func) == "self._emit_value_with_encoding"]
+    if not typed:
+        raise AnalysisError("emit_bytes: typed emission not found")
+    dpar = eb.node.args.args[2].arg
+    ctx.check(all(elin.under(g, dpar) for g, _ in typed), eb, typed[0][1], "emit_bytes gives a block a string type only when there are bytes",
+              f"an empty `{dpar}` (`.ascii ''`) still gets its own typed block: the empty block carries a block_types entry and finalize() dies with a bare AssertionError in "
+              "_remove_empty_blocks", key="emit_bytes::no-type-for-nothing")
